@@ -106,7 +106,10 @@ def sample_gemini_params(rng, family, allow_precomputed=True, allow_instance=Tru
             t = choice(rng, ["mmd", "wasserstein", "kl", "tv", "hellinger", "chi2"])
             g = {"type": t, "ovo": rng.random() < 0.5}
             if t == "mmd":
-                g["kernel"] = choice(rng, KERNELS + (["precomputed"] if allow_precomputed else []))
+                g["kernel"] = choice(rng, KERNELS + (["precomputed"] if allow_precomputed else []) +
+                                     (["callable:rbf", "callable:linear"] if allow_callable else []))
+                if g["kernel"] in ("rbf", "laplacian", "callable:rbf") and rng.random() < 0.4:
+                    g["kernel_params"] = {"gamma": choice(rng, [0.1, 0.5, 2.0])}     # legal even with a callable (ignored, warned)
             if t == "wasserstein":
                 g["metric"] = choice(rng, METRICS + (["precomputed"] if allow_precomputed else []))
             if rng.random() < 0.4:
@@ -316,7 +319,11 @@ def build_gemini_instance(spec):
     ovo = bool(spec.get("ovo", False))
     extra = {"epsilon": spec["epsilon"]} if "epsilon" in spec else {}
     if t == "mmd":
-        return MMDGEMINI(ovo=ovo, kernel=spec.get("kernel", "linear"), kernel_params=spec.get("kernel_params"), **extra)
+        kern = spec.get("kernel", "linear")
+        if isinstance(kern, str) and kern.startswith("callable:"):
+            kern = SimKernel(kern.split(":", 1)[1])
+        kp = spec.get("kernel_params")
+        return MMDGEMINI(ovo=ovo, kernel=kern, kernel_params=None if kp is None else dict(kp), **extra)
     if t == "wasserstein":
         return WassersteinGEMINI(ovo=ovo, metric=spec.get("metric", "euclidean"), **extra)
     return {"kl": KLGEMINI, "tv": TVGEMINI, "hellinger": HellingerGEMINI, "chi2": ChiSquareGEMINI}[t](ovo=ovo, **extra)
